@@ -1,7 +1,7 @@
 (* C08 - more latency never means more limit (update monotone in the observed RTT). *)
 From Coq Require Import ZArith Reals List.
 From Flocq Require Import Core BinarySingleNaN.
-From GCL Require Import Base.F64 Base.F64Facts Model.Measure Model.Limits Proofs.VegasSafe Proofs.VegasMono Proofs.VegasQueueMono Proofs.VegasMonoFull Proofs.GradSafe Proofs.GradMono Proofs.GradMixed.
+From GCL Require Import Base.F64 Base.F64Facts Model.Measure Model.Limits Proofs.VegasSafe Proofs.VegasMono Proofs.VegasQueueMono Proofs.VegasMonoFull Proofs.GradSafe Proofs.GradMono Proofs.GradMixed Proofs.Grad2Safe Proofs.Grad2Mono.
 From GCL Require Proofs.TablesOk.
 
 (* Vegas.  The observed RTT enters the update only through the queue estimate q = ceil(est x (1 - baseline/rtt)) (vegas_queue).
@@ -85,6 +85,25 @@ Theorem C08_gradient_margin g Mx s1 s2 o1 o2 q : GInv g Mx -> gsample_ok s1 -> g
   (R (g_est (o_st o2)) <= R (g_est (o_st o1)))%R.
 Proof. exact (grad_rtt_mono_margin g Mx s1 s2 o1 o2 q). Qed.
 Print Assumptions C08_gradient_margin.
+
+(* Gradient2 (partial).  The updating branch of a step computes g2_finish est (g2_gradient long' rtt), where long' is the long-term average
+   after the sample has been added to it.  In binary64 the new stored estimate is monotone in the gradient, and for a given long-term value
+   the gradient max(1/2, min(1, long'/rtt)) is antitone in the RTT (and monotone in long').  That long' itself grows with the RTT - by the
+   factor f of the exponential average, so that long'/rtt still falls - is not covered here: the twin-run oracle decides it. *)
+Theorem C08_gradient2_step_shape v s : flt (of_int (s_inflight s)) (div (h_est v) two) = false ->
+  h_est (o_st (grad2_step v s)) = g2_finish v (g2_gradient (ea_value (ea_add (h_long v) (of_int (s_rtt s)))) (of_int (s_rtt s))).
+Proof. exact (grad2_step_finish v s). Qed.
+Print Assumptions C08_gradient2_step_shape.
+Theorem C08_gradient2_partial g Mx gr1 gr2 : G2Inv g Mx -> fin gr1 = true -> fin gr2 = true -> (/2 <= R gr1 <= R gr2)%R -> (R gr2 <= 1)%R ->
+  (R (g2_finish g gr1) <= R (g2_finish g gr2))%R.
+Proof. exact (fun HI => g2_finish_mono g Mx HI gr1 gr2). Qed.
+Print Assumptions C08_gradient2_partial.
+Theorem C08_gradient2_gradient lv1 lv2 x1 x2 : fin lv1 = true -> fin lv2 = true -> fin x1 = true -> fin x2 = true ->
+  (0 <= R lv1 <= R lv2)%R -> (R lv2 <= BB)%R -> (1 <= R x2 <= R x1)%R -> (R x1 <= XX)%R ->
+  fin (g2_gradient lv1 x1) = true /\ fin (g2_gradient lv2 x2) = true /\
+  (/2 <= R (g2_gradient lv1 x1) <= R (g2_gradient lv2 x2))%R /\ (R (g2_gradient lv2 x2) <= 1)%R.
+Proof. exact (g2_gradient_mono lv1 lv2 x1 x2). Qed.
+Print Assumptions C08_gradient2_gradient.
 
 Theorem C08_tables_agree : TablesOk.tables_ok = true /\ TablesOk.functions_ok = true /\ TablesOk.log10f_ok = true.
 Proof. exact (conj TablesOk.tables_agree (conj TablesOk.functions_agree TablesOk.log10f_agrees)). Qed.
